@@ -552,7 +552,7 @@ func descendingCmp(v ssa.Value, an *ssa.Function) bool {
 	if !ok || !kok || !strings.HasSuffix(calleeNameCommon(&call.Call), "quantity.(*Quantity).Cmp") {
 		return false
 	}
-	pi, pj := "param:"+an.Params[0].Name(), "param:"+an.Params[1].Name()
+	pi, pj := "param:"+pname(an.Params[0]), "param:"+pname(an.Params[1])
 	x, y := vstr(call.Call.Args[0]), vstr(call.Call.Args[1])
 	ij := strings.Contains(x, pi) && !strings.Contains(x, pj) && strings.Contains(y, pj) && !strings.Contains(y, pi)
 	ji := strings.Contains(x, pj) && !strings.Contains(x, pi) && strings.Contains(y, pi) && !strings.Contains(y, pj)
